@@ -223,16 +223,37 @@ Proof.
   - exfalso. unfold ltb in H. rewrite (abs_nonneg SL) in H. discriminate.
 Qed.
 
-Theorem sat_sound (p : formula) (w : trace) (n : nat) :
+(* arithmetic terms do not look at the predicate kinds *)
+Lemma rho_term_pk (pk1 pk2 : formula -> formula -> pkind) (f : formula) (w : trace) (n t : nat) :
+  is_term f = true -> rho AR pk1 f w n t = rho AR pk2 f w n t.
+Proof.
+  induction f; intros H; cbn [is_term] in H; try discriminate; cbn [rho]; try reflexivity.
+  - rewrite IHf by exact H. reflexivity.
+  - apply andb_prop in H as [H1 H2]. rewrite IHf1, IHf2 by assumption. reflexivity.
+Qed.
+
+(* the predicate kinds of the interface-aware semantics keep the sign sound: +-inf by satisfaction, or 0 *)
+Lemma pred_val_sound k c l r :
+  (pos (pred_val AR k c l r) -> pred_sat c l r = true) /\ (negv (pred_val AR k c l r) -> pred_sat c l r = false).
+Proof.
+  destruct k; cbn [pred_val].
+  - apply pred_sound.
+  - destruct (pred_sat c l r); split; intros H; try reflexivity; exfalso; [exact (negv_top H)|exact (pos_bot H)].
+  - split; intros H; exfalso; unfold pos, negv, ltb in H; rewrite leb_refl in H; discriminate.
+Qed.
+
+Variable pk0 : formula -> formula -> pkind.
+
+Theorem sat_sound_pk (p : formula) (w : trace) (n : nat) :
   is_bool p = true ->
-  forall t, (pos (rho AR pk p w n t) -> sat p w n t = true) /\
-            (negv (rho AR pk p w n t) -> sat p w n t = false).
+  forall t, (pos (rho AR pk0 p w n t) -> sat p w n t = true) /\
+            (negv (rho AR pk0 p w n t) -> sat p w n t = false).
 Proof.
   induction p; intros Hb t; simpl in Hb; try discriminate;
   try (apply andb_prop in Hb as [Hb1 Hb2]);
   try (pose proof (IHp Hb) as IH); try (pose proof (IHp1 Hb1) as IH1); try (pose proof (IHp2 Hb2) as IH2);
   cbn [rho sat].
-  - (* Pred *) apply pred_sound.
+  - (* Pred *) rewrite (rho_term_pk pk0 pk p1 w n t Hb1), (rho_term_pk pk0 pk p2 w n t Hb2). apply pred_val_sound.
   - (* Not *) rewrite pos_neg, negv_neg. destruct (IH t). split; intros H'; [rewrite H0|rewrite H]; auto.
   - (* And *) rewrite pos_vmin, negv_vmin. destruct (IH1 t), (IH2 t). split.
     + intros [? ?]. rewrite H, H1; auto.
@@ -308,3 +329,10 @@ Proof.
 Qed.
 
 End Sat.
+
+(* the standard semantics *)
+Theorem sat_sound {VS : Val} (AR : Arith VS) (SL : SignLaws AR) (p : formula) (w : trace) (n : nat) :
+  is_bool p = true ->
+  forall t, (pos AR (rho AR (fun _ _ => PStd) p w n t) -> sat AR p w n t = true) /\
+            (negv AR (rho AR (fun _ _ => PStd) p w n t) -> sat AR p w n t = false).
+Proof. exact (sat_sound_pk AR SL (fun _ _ => PStd) p w n). Qed.
